@@ -456,6 +456,23 @@ def defaults_battery(rng):
                         yield dialect, req
 
 
+def identity_battery(rng):
+    """identity -> identity / none -> identity / identity -> none with the further identity options (NO MINVALUE,
+    NO MAXVALUE, CYCLE, CACHE, MINVALUE/MAXVALUE/INCREMENT) on both sides, postgresql and oracle (the dialects that can
+    express identity changes), alone and together with a nullability change"""
+    ids = ai.DEFAULT_KEYS_IDENTITY
+    for dialect in ("postgresql", "oracle"):
+        for new in ids + [None]:
+            for old in ids + [None]:
+                if new is None and old is None:
+                    continue
+                for extra in ((), ("nullable",)):
+                    req = draw_values(rng, extra + ("server_default",), ("ex_default",), False, False)
+                    req["server_default"] = {"k": "set", "v": new} if new else {"k": "drop"}
+                    req["ex_default"] = {"k": "set", "v": old} if old else {"k": "drop"}
+                    yield dialect, req
+
+
 def config_battery(rng):
     """context configurations (literal_binds, transactional_ddl given, batch separators overridden/empty): the emitted
     statements must not depend on them -- every requested subset x (nothing stated | everything stated) x schema"""
@@ -500,6 +517,9 @@ def run(ctx, rng_name="main", draws=None, budget_s=None):
     for dialect, req in defaults_battery(ctx.rng(rng_name + "/defaults")):
         b.add(dialect, req)
         ctx.hist("stream", "defaults")
+    for dialect, req in identity_battery(ctx.rng(rng_name + "/identity")):
+        b.add(dialect, req)
+        ctx.hist("stream", "identity")
     for dialect, req in config_battery(ctx.rng(rng_name + "/config")):
         b.add(dialect, req)
         ctx.hist("stream", "config:" + req["config"])
